@@ -4,6 +4,7 @@ go 1.22.7
 
 require (
 	github.com/RoaringBitmap/roaring v1.5.0
+	github.com/cespare/xxhash/v2 v2.3.0
 	github.com/paulmach/orb v0.10.0
 	github.com/protomaps/go-pmtiles v0.0.0
 	zombiezen.com/go/sqlite v1.1.2
@@ -31,7 +32,6 @@ require (
 	github.com/aws/aws-sdk-go-v2/service/s3 v1.58.3 // indirect
 	github.com/aws/smithy-go v1.20.3 // indirect
 	github.com/beorn7/perks v1.0.1 // indirect
-	github.com/cespare/xxhash/v2 v2.3.0 // indirect
 	github.com/dustin/go-humanize v1.0.1 // indirect
 	github.com/felixge/httpsnoop v1.0.4 // indirect
 	github.com/go-logr/logr v1.4.2 // indirect
